@@ -296,7 +296,7 @@ pub fn run(ctx: &Ctx) {
     ctx.rule("generated (X, A, B, p) from integers, fractions, negatives, zero and boundaries (100, 1e-6, 1e9), X/A/B plain or money in any rated currency and spelling, ten phrase shapes, both percent spellings, spaced and unspaced operators, 4 separator conventions; oracle = the seven textbook formulas (x/0 = 0), kind Number / Money(same currency) / Percent, tolerance 1e-9, plus metamorphic equality of the p% and %p spellings; non-trivial = p not in {0,100}, X != 0 and the formulas give pairwise different values for this input (a swapped formula cannot agree by accident)");
     ctx.assume("'6 %' and '% 6' are not percent literals (the lexer requires adjacency) and are not generated");
     ctx.run_table(&PctProp, "boundary-panel", table(), true);
-    ctx.run_generated(&PctProp, ctx.tier.pick(20_000, 500_000), case_strategy);
+    ctx.run_generated(&PctProp, ctx.tier.pick(150_000, 1_500_000), case_strategy);
 }
 
 pub fn replay(w: &mut Worker, sub: &str, case: &serde_json::Value) -> Option<Verdict> {
